@@ -80,6 +80,7 @@ type sResult struct { // one benchmark line
 
 type sSet struct {
 	hasBaseOnly bool
+	foreign     map[string]bool // (unit, table, bench, exp) measured under a role that is neither numerator nor denominator
 	sparseKeys bool // numerator results carry no denominator hash, baseline results no numerator hash/stamp
 	points  []sPoint
 	exps    []time.Time // experiment instants (distinct)
@@ -207,6 +208,12 @@ func sGenSet(T *sim.Tape, allowNoDen bool) *sSet {
 		s.pspell[p] = sp[spellIdx(len(sp))]
 	}
 	s.sparseKeys = T.Intn(4, "sparse-keys") == 0
+	s.foreign = map[string]bool{}
+	foreignOnly := -1
+	if nb >= 2 && T.Intn(8, "foreign-only-benchmark") == 0 {
+		foreignOnly = nb - 1 // the last benchmark was only ever run by a toolchain that takes no part in the comparison
+		s.hasBaseOnly = true // (keeps the incremental lane to fully compared sets)
+	}
 	baseOnly := -1
 	if nb >= 2 && T.Intn(6, "baseline-only-benchmark") == 0 {
 		baseOnly = 1 + T.Intn(nb-1, "which-baseline-only")
@@ -221,6 +228,15 @@ func sGenSet(T *sim.Tape, allowNoDen bool) *sSet {
 				continue
 			}
 			bench := sBenches[bi]
+			if bi == foreignOnly {
+				res := sResult{exp: e, name: bench, cfg: s.cfgFor(e, pts[0], tab, "Other", T)}
+				for u := 0; u < nu; u++ {
+					res.vals = append(res.vals, benchfmt.Value{Value: float64(7 + u), Unit: sUnits[u]})
+					s.foreign[fmt.Sprintf("%s|%v|%s|%d", sUnits[u], tab, bench, e)] = true
+				}
+				s.results = append(s.results, res)
+				continue
+			}
 			nlines := 1 + T.Intn(6, "nlines")
 			if bigSamples {
 				nlines = 40 + T.Intn(31, "nlines-big") // samples around the 64-value mark
@@ -451,6 +467,11 @@ func (s *sSet) modelDump(withTable bool, policy int) string {
 		units[f[0]] = true
 		tabs[f[1]] = true
 	}
+	for k := range s.foreign {
+		f := strings.Split(k, "|")
+		units[f[0]] = true
+		tabs[f[1]] = true
+	}
 	var tks []tk
 	for u := range units {
 		if !sFilt.unit(u) {
@@ -510,6 +531,11 @@ func (s *sSet) modelDump(withTable bool, policy int) string {
 					}
 				}
 				hasAny := hasDen
+				for _, et := range grp {
+					if s.foreign[fmt.Sprintf("%s|%s|%s|%d", t.unit, fmt.Sprint(et), bench, e)] {
+						hasAny = true // measured by some other toolchain only: no sample, but the benchmark was run on this table
+					}
+				}
 				for _, pi := range s.expPts[e] {
 					var num []float64
 					ok := false
@@ -643,6 +669,18 @@ func sBuild(t *testing.T, r *sim.Run, s *sSet, order []int, withTable bool, poli
 			os.WriteFile(p, []byte(txt.String()), 0o644)
 			paths = append(paths, p)
 			start = end
+		}
+		if len(paths) >= 2 && r.T.Intn(5, "missing-file-probe") == 0 {
+			// the same files with one that does not exist among them, given to a throw-away builder: the caller must
+			// hear about it (what was read from the files before it is a partial result set, not the result set)
+			var warns []string
+			pb, _ := NewBuilder(sOpts(withTable, &warns))
+			at := r.T.Intn(len(paths), "missing-at")
+			with := append(append(append([]string(nil), paths[:at]...), filepath.Join(c18Tmp, "no-such-file.txt")), paths[at:]...)
+			if err := pb.AddFiles(benchfmt.Files{Paths: with, AllowStdin: false}); err == nil {
+				r.Fail("series", "missing-input-ignored", "AddFiles(%d files, the one at position %d does not exist) reported no error", len(with), at)
+			}
+			r.Hit("AddFiles given a file that does not exist")
 		}
 		if err := b.AddFiles(benchfmt.Files{Paths: paths, AllowStdin: false}); err != nil {
 			r.Fail("harness", "addfiles", "%v", err)
